@@ -49,7 +49,12 @@ def _make(rng, typ):
         w = dict(v, release=list(v["release"]) + ([0] if (op != "~=" and not wc and rng.random() < 0.6) else []))
         # the second object may be the member of a one-clause set
         via = "in:" if rng.random() < 0.3 else ""
-        return GS.spell_clause(rng, c, ws=False), via + GS.spell_clause(rng, (op, w, wc), ws=False), GS.spell_clause(rng, GS.clause_struct(rng, near=v), ws=False)
+        third = GS.clause_struct(rng, near=v)
+        if wc and rng.random() < 0.7:
+            # prefix matching: `==V.*` and `==V.0.*` are different specifiers (the second excludes V.1); whatever == says
+            # about them, equal objects must match alike (the probes V.5 / V.0.5 are added in check_law)
+            third = (op, dict(v, release=list(v["release"]) + [0] * rng.choice([1, 1, 2])), True)
+        return GS.spell_clause(rng, c, ws=False), via + GS.spell_clause(rng, (op, w, wc), ws=False), GS.spell_clause(rng, third, ws=False)
     if typ == "SpecifierSet":
         near = GV.struct(rng)
         cs = [GS.clause_struct(rng, near=near) for _ in range(rng.randrange(0, 4))]
@@ -259,10 +264,12 @@ class C10(Prop):
             import re
             for k in "abc":
                 for m in re.findall(r"[0-9][0-9a-zA-Z.!_+-]*", inp[k]):
-                    try:
-                        Version(m); probes.append(m)
-                    except Exception:  # noqa: BLE001
-                        pass
+                    m = m.rstrip(".")                              # the version part of `==V.*`
+                    for cand in (m, m + ".5", m + ".0.5"):
+                        try:
+                            Version(cand); probes.append(cand)
+                        except Exception:  # noqa: BLE001
+                            pass
         for i, x in enumerate(objs):
             if not (x == x) or (x != x) or hash(x) != hash(x):
                 return False, f"{typ}({inp['abc'[i]]!r}) is not equal to itself"
